@@ -156,7 +156,21 @@ def verify_function(qualname, opts=None):
             rep.status = "VACUOUS"
             rep.reason = "requires is unsatisfiable"
             return rep
+        is_gen = any(isinstance(n_, (ast.Yield, ast.YieldFrom)) for n_ in ast.walk(fn))
+        if is_gen:
+            if not isinstance(con.result, TList):
+                raise SpecInapplicable(f"{con.short} is a generator: its contract must give a list result")
+            from .spec import set_list
+
+            yref = st.new_ref()
+            set_list(st, con.result.elem, yref, lo=z3.IntVal(0), hi=z3.IntVal(0))
+            st.frames[0].vars["_yields"] = Val(con.result, yref)
         outcomes = eng.exec_block(fn.body, st)
+        if is_gen:
+            for oc in outcomes:
+                if oc.kind in ("normal", "return"):
+                    oc.kind = "return"
+                    oc.val = oc.st.frames[0].vars["_yields"]
         rep.paths = len(outcomes)
         for oc in outcomes:
             s = oc.st
@@ -209,6 +223,8 @@ def verify_function(qualname, opts=None):
                         "smt2": smt.export_query(ob.pc, ob.goal, ob.axioms),
                         "relaxed": smt.export_relaxed(ob.pc, ob.goal) if ob.axioms is None else None,
                         "noseq": smt.export_noseq(ob.pc, ob.goal, ob.axioms),
+                        "linear": smt.export_linear(ob.pc, ob.goal, ob.axioms),
+                        "sliced": smt.export_sliced(ob.pc, ob.goal, ob.axioms),
                     }
                 )
             rep.status = "PENDING"
